@@ -30,12 +30,14 @@ RULE = ('group cases = (Series|Frame spec whose key cells come from small per-dt
         'iter_window_array[_items]; non-trivial = grouped/windowed axis has >= 2 members (windows: and the reference yields '
         '>= 1 window); distinct = hash of (spec, layout, arguments, form)')
 EXPLANATION = ('window parameters are enumerated completely for n <= 6 (size 1..n+1, step 1..3, label_shift and start_shift '
-               '-2..2, size_increment 0..2, window_sized on/off: 12 600 combinations; quick: each on one of Series / Frame axis 0 / '
+               '-2..2, size_increment 0..2, window_sized on/off: 12 600 combinations; plus shrinking windows: size 2..n+4, step 1..2, shifts -1..1, '
+               'size_increment -3..-1: 5 832 combinations; quick: each on one of Series / Frame axis 0 / '
                'Frame axis 1, thorough: each on all three); group specs and larger windows are sampled')
 EXHAUSTIVE = {'quick': False, 'thorough': False}
 ASSUMPTIONS = [
     'key equality is Python equality of the key cells (1 == 1.0 == True, 0.0 == -0.0, a datetime64 equals the date object NumPy presents it as); str(x) equality is not key equality',
     'window termination: windows start at elements start_shift + k*step that are <= the last element (also for k = 0); a window wholly before the first element is empty, not dropped, when window_sized is off',
+    'size_increment < 0 (shrinking windows): window k has size + k*size_increment elements while that is >= 1; whether the window of size exactly 0 is yielded is not judged; step = 0 is not combined with a negative increment',
     'step = 0 with size_increment >= 1 (expanding windows): the library must yield a prefix of the reference sequence that contains every window whose right edge is inside the container',
     'as_array windows of a Frame are compared at value strength modulo NumPy row/column consolidation (ints kept within 2**31 in window specs)',
     'the name of a group / window container is not asserted; the class (Frame vs FrameGO) is recorded only',
@@ -363,6 +365,9 @@ def ref_windows(n, size, step, window_sized, label_shift, start_shift, size_incr
         sz = size + k * size_increment
         if left > n - 1:
             break
+        if sz < 1:
+            # shrinking windows (size_increment < 0): the sequence ends when no element is left in the window
+            break
         if kmax is not None and k > kmax:
             break
         lo = max(left, 0)
@@ -598,6 +603,11 @@ def window_param_space(max_n=6):
         for size, step, sized, ls, ss, inc in itertools.product(range(1, n + 2), (1, 2, 3), (True, False), range(-2, 3),
                                                                 range(-2, 3), (0, 1, 2)):
             yield n, {'size': size, 'step': step, 'window_sized': sized, 'label_shift': ls, 'start_shift': ss, 'size_increment': inc}
+    # shrinking windows: the first window may overshoot the container (size up to n + 4) and later, smaller ones fit
+    for n in range(1, max_n + 1):
+        for size, step, sized, ls, ss, inc in itertools.product(range(2, n + 5), (1, 2), (True, False), (-1, 0, 1),
+                                                                (-1, 0, 1), (-1, -2, -3)):
+            yield n, {'size': size, 'step': step, 'window_sized': sized, 'label_shift': ls, 'start_shift': ss, 'size_increment': inc}
 
 
 def _win_case(rng, n, params, which, kinds=('auto', 'str', 'int', 'IndexDate'), valid=None, func=None):
@@ -612,7 +622,10 @@ def _win_case(rng, n, params, which, kinds=('auto', 'str', 'int', 'IndexDate'), 
 def gen_window_sampled(rng):
     n = rng.choice([0, 1, 2, 3, 4, 5, 6, 7, 8, 9, 10, 12])
     params = {'size': rng.randint(1, n + 2), 'step': rng.choice([0, 1, 1, 2, 3, 4, 5]), 'window_sized': rng.random() < 0.5,
-              'label_shift': rng.randint(-4, 4), 'start_shift': rng.randint(-4, 4), 'size_increment': rng.choice([0, 0, 1, 2, 3])}
+              'label_shift': rng.randint(-4, 4), 'start_shift': rng.randint(-4, 4), 'size_increment': rng.choice([0, 0, 1, 2, 3, -1, -2, -3])}
+    if params['size_increment'] < 0:
+        params['size'] = rng.randint(2, n + 6)
+        params['step'] = max(1, params['step'])
     if params['step'] == 0 and params['size_increment'] == 0:
         params['size_increment'] = 1
     which = rng.choice(['series', 'frame_axis0', 'frame_axis1'])
@@ -1118,6 +1131,12 @@ def _judge_window_sequence(ctx, klass, labels, n, params, ref, got_pairs, step0,
         return
     if len(got) == len(exp) and all(_win_eq(g, e) for g, e in zip(got, exp)):
         return
+    if (params['size_increment'] < 0 and len(got) == len(exp) + 1 and all(_win_eq(g, e) for g, e in zip(got, exp))
+            and _is_empty_obs(got[-1][1])):
+        # the window whose size has shrunk to exactly 0: the statement speaks of slices 'of the stated size' and does not say
+        # whether an empty one is a window; the library yields it when its anchor label exists -- not judged
+        ctx.tally('window_not_judged', 'zero_size_window_of_shrinking_sequence')
+        return
     # the reference sequence followed / preceded only by windows that start beyond the last element?
     extra = None
     if len(got) > len(exp) and all(_win_eq(g, e) for g, e in zip(got, exp)):
@@ -1157,7 +1176,8 @@ def _window_klass(case, container, n):
             'start_shift_negative': p['start_shift'] < 0, 'start_beyond_end': p['start_shift'] > n - 1,
             'label_shift_sign': (p['label_shift'] > 0) - (p['label_shift'] < 0), 'label_before_window': p['label_shift'] <= -p['size'],
             'size_increment': p['size_increment'] > 0, 'valid': case.get('valid'), 'func': case.get('func'),
-            'may_extract_empty': n == 0 or p['start_shift'] < 0 or p['start_shift'] > n - 1}
+            'may_extract_empty': n == 0 or p['start_shift'] < 0 or p['start_shift'] > n - 1 or p['size_increment'] < 0,
+            'shrinking': p['size_increment'] < 0}
 
 
 def _window_kwargs(case, axis):
